@@ -113,6 +113,8 @@ def _mk_root(case, cache):
     if k:
         pos = rng.choice(size, size=k, replace=False)
         dense[pos] = rng.integers(1, 9, size=k) + (10 if case["fill"] else 0)
+        if case.get("neg"):
+            dense[pos] = -dense[pos]
     x = sparse.COO.from_numpy(dense.reshape(shape), fill_value=case["fill"])
     if cache:
         x.enable_caching()
@@ -153,6 +155,16 @@ def _run_history(case, cache):
                 o = t.tocsr()
             elif kind == "csc":
                 o = t.tocsc()
+            elif kind == "cp":            # the copy constructor, with or without a new fill value
+                o = sparse.COO(t) if op[2] is None else sparse.COO(t, fill_value=op[2])
+            elif kind == "shcp":
+                o = t.copy(deep=False)
+            elif kind == "dcp":
+                o = t.copy()
+            elif kind == "same_astype":
+                o = t.astype(t.dtype, copy=False)
+            elif kind == "same_asformat":
+                o = t.asformat("coo")
             elif kind in ("dotl", "dotr"):
                 # tensordot first calls t.transpose(..).reshape(..) — through t's memo.  Make the same calls
                 # here first (the ones inside dot are then hits, or recomputations without caching) and never
@@ -211,9 +223,9 @@ def impl_hist(case):
                     continue
                 seen.add(id(o))
                 if o._cache is None:
-                    fins.append([i, None, None, False, False])
+                    fins.append([i, False, [], [], hasattr(o, "_csr"), hasattr(o, "_csc")])
                     continue
-                fins.append([i, [[int(a) for a in k] for k, _v in o._cache["transpose"]],
+                fins.append([i, True, [[int(a) for a in k] for k, _v in o._cache["transpose"]],
                              [[int(a) for a in k] for k, _v in o._cache["reshape"]],
                              hasattr(o, "_csr"), hasattr(o, "_csc")])
             out["fins"] = fins
@@ -280,6 +292,105 @@ def _factorizations(n, rng):
     return sh
 
 
+class HistoryBuilder:
+    """builds a user-level history and its expansion into model calls (a dot expands into the hidden
+    transpose/reshape calls tensordot makes), tracking the predicted shape and fill value of every COO object"""
+
+    def __init__(self, shape, fill, seed, nnz):
+        self.case = {"shape": list(shape), "fill": fill, "seed": seed, "nnz": nnz, "uops": []}
+        self.targets = [(-1, -1, list(shape), fill)]      # (user index, expanded index, shape, fill) of COO objects
+        self.xops, self.u2x, self.tags = [], [], {}
+
+    def tag(self, t):
+        self.tags[t] = self.tags.get(t, 0) + 1
+
+    def _visible(self, uop, xop, out_shape, fill, kind):
+        ui = len(self.case["uops"])
+        self.case["uops"].append(uop)
+        self.xops.append(xop)
+        self.u2x.append(len(self.xops) - 1)
+        self.tag(kind)
+        if out_shape is not None:
+            self.targets.append((ui, len(self.xops) - 1, list(out_shape), fill))
+            return len(self.targets) - 1
+        self.tag("error-or-matrix")
+        return None
+
+    # every method takes the index (into self.targets) of the object the call is made on
+    def transpose(self, ti, axes):
+        tu, tx, sh, fl = self.targets[ti]
+        return self._visible(["tr", tu, axes], [tx, 0, axes, True, True], _pred_transpose(sh, axes), fl, "tr")
+
+    def T(self, ti):
+        tu, tx, sh, fl = self.targets[ti]
+        return self._visible(["T", tu], [tx, 0, None, True, True], _pred_transpose(sh, None), fl, "T")
+
+    def reshape(self, ti, arg, order="C"):
+        tu, tx, sh, fl = self.targets[ti]
+        return self._visible(["rs", tu, list(arg), order], [tx, 1, list(arg), order == "C", True],
+                             _pred_reshape(sh, arg, order), fl, "rs")
+
+    def tocsr(self, ti):
+        tu, tx, sh, fl = self.targets[ti]
+        return self._visible(["csr", tu], [tx, 2, None, True, True], None, fl, "csr")
+
+    def tocsc(self, ti):
+        tu, tx, sh, fl = self.targets[ti]
+        return self._visible(["csc", tu], [tx, 3, None, True, True], None, fl, "csc")
+
+    def copy(self, ti, fill=None):
+        tu, tx, sh, fl = self.targets[ti]
+        return self._visible(["cp", tu, fill], [tx, 4, None if fill is None else [fill], True, True], sh,
+                             fl if fill is None else fill, "COO(x)" if fill is None else "COO(x, fill_value=v)")
+
+    def shallow(self, ti):
+        tu, tx, sh, fl = self.targets[ti]
+        return self._visible(["shcp", tu], [tx, 5, None, True, True], sh, fl, "x.copy(deep=False)")
+
+    def deep(self, ti):
+        tu, tx, sh, fl = self.targets[ti]
+        return self._visible(["dcp", tu], [tx, 5, None, True, True], sh, fl, "x.copy()")
+
+    def same(self, ti, how):
+        tu, tx, sh, fl = self.targets[ti]
+        return self._visible(["same_" + how, tu], [tx, 6, None, True, True], sh, fl, "return-self " + how)
+
+    def dot_ok(self, ti):
+        _tu, _tx, sh, fl = self.targets[ti]
+        return fl == 0 and 0 not in sh and len(sh) >= 1
+
+    def dotl(self, ti, bshape, bsparse, seed):
+        # tensordot(a=t, b): t.transpose(identity) is `return self`; then t.reshape((-1, N2)) goes through
+        # t's reshape memo — unless both are 1-d (no reshape at all)
+        tu, tx, sh, _fl = self.targets[ti]
+        self.case["uops"].append(["dotl", tu, list(bshape), bsparse, seed, list(sh)])
+        self.u2x.append(None)
+        if not (len(sh) == 1 and len(bshape) == 1):
+            self.xops.append([tx, 1, [-1, sh[-1]], True, False])
+            self.tag("dot-hidden-reshape")
+        self.tag("dotl")
+
+    def dotr(self, ti, ashape, asparse, seed):
+        # tensordot(a, b=t): t.transpose([axis] + rest) (identity for ndim <= 2), then .reshape((K, -1)) on
+        # what that returned — for ndim >= 3 a derived object with its own memo
+        tu, tx, sh, _fl = self.targets[ti]
+        nd = len(sh)
+        k = sh[-2] if nd >= 2 else sh[0]
+        self.case["uops"].append(["dotr", tu, list(ashape), asparse, seed, list(sh)])
+        self.u2x.append(None)
+        if nd <= 2:
+            self.xops.append([tx, 1, [k, -1], True, False])
+            self.tag("dot-hidden-reshape")
+        else:
+            self.xops.append([tx, 0, [nd - 2] + [a for a in range(nd) if a != nd - 2], True, False])
+            self.xops.append([len(self.xops) - 1, 1, [k, -1], True, False])
+            self.tag("dot-hidden-transpose")
+        self.tag("dotr")
+
+    def result(self):
+        return self.case, self.xops, self.u2x, self.tags
+
+
 def gen_history(rng, maxlen):
     nd = rng.choice([1, 2, 2, 2, 2, 3, 3, 3, 4])
     shape = [rng.choice([1, 2, 2, 3, 3, 4, 5]) for _ in range(nd)]
@@ -287,24 +398,19 @@ def gen_history(rng, maxlen):
         shape[rng.randrange(nd)] = 0
     fill = 0 if rng.random() < 0.85 else 3
     n = rng.randint(max(1, maxlen // 3), maxlen)
-    targets = [(-1, -1, list(shape))]            # (user index, expanded index, shape) of COO objects
+    hb = HistoryBuilder(shape, fill, rng.randrange(1 << 30), rng.choice([0, 1, 3, 6, 10]))
     pools = {}
-    uops, xops, u2x = [], [], []
-    tags = {}
-
-    def tag(t):
-        tags[t] = tags.get(t, 0) + 1
+    live = [0]          # indices into hb.targets that the generator still uses
     for _ in range(n):
-        if len(targets) > 1 and rng.random() < 0.35:
-            tu, tx, tshape = rng.choice(targets[1:])
-        else:
-            tu, tx, tshape = targets[0]
+        ti = rng.choice(live[1:]) if (len(live) > 1 and rng.random() < 0.4) else 0
+        _tu, _tx, tshape, _tfill = hb.targets[ti]
         nd_t = len(tshape)
-        kind = rng.choices(["tr", "T", "rs", "csr", "csc", "dotl", "dotr"], [30, 8, 30, 8, 8, 8, 8])[0]
-        if kind in ("dotl", "dotr") and (fill != 0 or 0 in tshape or nd_t == 0):
+        kind = rng.choices(["tr", "T", "rs", "csr", "csc", "dotl", "dotr", "cp", "cpfill", "shcp", "dcp", "same"],
+                           [26, 7, 26, 8, 8, 6, 6, 4, 6, 2, 4, 2])[0]
+        if kind in ("dotl", "dotr") and not hb.dot_ok(ti):
             kind = "rs"
-        pool = pools.setdefault((tu, kind), [])
-        ui = len(uops)
+        pool = pools.setdefault((ti, kind), [])
+        new = None
         if kind == "tr":
             if pool and rng.random() < 0.6:
                 axes = rng.choice(pool)
@@ -325,13 +431,9 @@ def gen_history(rng, maxlen):
                         else:
                             axes[0] = nd_t
                 pool.append(axes)
-            uops.append(["tr", tu, axes])
-            xops.append([tx, 0, axes, True, True])
-            out_shape = _pred_transpose(tshape, axes)
+            new = hb.transpose(ti, axes)
         elif kind == "T":
-            uops.append(["T", tu])
-            xops.append([tx, 0, None, True, True])
-            out_shape = _pred_transpose(tshape, None)
+            new = hb.T(ti)
         elif kind == "rs":
             if pool and rng.random() < 0.6:
                 arg, order = rng.choice(pool)
@@ -340,55 +442,103 @@ def gen_history(rng, maxlen):
                 r = rng.random()
                 if r < 0.25 and arg:
                     arg[rng.randrange(len(arg))] = -1
+                    if r < 0.02 and len(arg) > 1:
+                        arg[rng.randrange(len(arg))] = -1        # possibly two -1: ValueError
                 elif r > 0.95:
                     arg[0] = arg[0] + 1
                 order = "F" if rng.random() < 0.03 else "C"
                 pool.append((arg, order))
-            uops.append(["rs", tu, list(arg), order])
-            xops.append([tx, 1, list(arg), order == "C", True])
-            out_shape = _pred_reshape(tshape, arg, order)
-        elif kind in ("csr", "csc"):
-            uops.append([kind, tu])
-            xops.append([tx, 2 if kind == "csr" else 3, None, True, True])
-            out_shape = None
+            new = hb.reshape(ti, arg, order)
+        elif kind == "csr":
+            hb.tocsr(ti)
+        elif kind == "csc":
+            hb.tocsc(ti)
+        elif kind == "cp":
+            new = hb.copy(ti)
+        elif kind == "cpfill":
+            new = hb.copy(ti, rng.choice([0, 0, 5, 7, 3]))
+        elif kind == "shcp":
+            new = hb.shallow(ti)
+        elif kind == "dcp":
+            new = hb.deep(ti)
+        elif kind == "same":
+            new = hb.same(ti, rng.choice(["astype", "asformat"]))
         elif kind == "dotl":
-            # tensordot(a=t, b): t.transpose(identity) is `return self`; then t.reshape((-1, N2)) goes through
-            # t's reshape memo — unless both are 1-d (no reshape at all)
             n2 = tshape[-1]
-            bshape = [n2] if rng.random() < 0.3 else [n2, rng.choice([1, 2])]
-            uops.append(["dotl", tu, bshape, rng.random() < 0.4, rng.randrange(1 << 30), list(tshape)])
-            if not (nd_t == 1 and len(bshape) == 1):
-                xops.append([tx, 1, [-1, n2], True, False])
-                tag("dot-hidden-reshape")
+            hb.dotl(ti, [n2] if rng.random() < 0.3 else [n2, rng.choice([1, 2])], rng.random() < 0.4, rng.randrange(1 << 30))
         else:
-            # tensordot(a, b=t): t.transpose([axis] + rest) (identity for ndim <= 2), then .reshape((K, -1)) on
-            # what that returned — for ndim >= 3 a derived object with its own memo
             k = tshape[-2] if nd_t >= 2 else tshape[0]
             ashape = [rng.choice([1, 2]), k] if (nd_t == 1 or rng.random() < 0.7) else [k]
-            uops.append(["dotr", tu, ashape, rng.random() < 0.4, rng.randrange(1 << 30), list(tshape)])
-            if nd_t <= 2:
-                xops.append([tx, 1, [k, -1], True, False])
-                tag("dot-hidden-reshape")
-            else:
-                newaxes = [nd_t - 2] + [a for a in range(nd_t) if a != nd_t - 2]
-                xops.append([tx, 0, newaxes, True, False])
-                xops.append([len(xops) - 1, 1, [k, -1], True, False])
-                tag("dot-hidden-transpose")
-        if kind in ("dotl", "dotr"):
-            u2x.append(None)
-            tag(kind)
-            continue
-        u2x.append(len(xops) - 1)
-        tag(kind)
-        if out_shape is not None:
-            targets.append((ui, len(xops) - 1, out_shape))
-            if len(targets) > 12:
-                targets.pop(1 + rng.randrange(len(targets) - 1))
-        else:
-            tag("error-or-matrix")
-    case = {"shape": shape, "fill": fill, "seed": rng.randrange(1 << 30),
-            "nnz": rng.choice([0, 1, 3, 6, 10]), "uops": uops}
-    return case, xops, u2x, tags
+            hb.dotr(ti, ashape, rng.random() < 0.4, rng.randrange(1 << 30))
+        if new is not None:
+            live.append(new)
+            if len(live) > 12:
+                live.pop(1 + rng.randrange(len(live) - 1))
+    return hb.result()
+
+
+def scenario_histories():
+    """directed histories: the interplay of copies with the memo (the defect repaired by d7a2c41: a copy with
+    another fill value answered from the original's memo), inherited _csr/_csc attributes behind the fill-value
+    guard, shared memo of plain copies with evictions through the copy, deep copies"""
+    out = []
+    for shape, perm, rs in (([2, 3], [1, 0], [3, 2]), ([2, 3, 2], [2, 0, 1], [4, 3]), ([4], None, [2, 2]),
+                            ([3, 3], [-1, 0], [9])):
+        for fill0, fill1 in ((0, 7), (0, 0), (3, 0), (3, 5)):
+            hb = HistoryBuilder(shape, fill0, 12345 + len(out), 4)
+            hb.T(0)
+            hb.transpose(0, perm)
+            hb.reshape(0, rs)
+            y = hb.copy(0, fill1)            # must not see the three memoised results
+            hb.T(y)
+            hb.transpose(y, perm)
+            hb.reshape(y, rs)
+            z = hb.copy(0)                   # shares the memo
+            hb.T(z)
+            hb.reshape(z, rs)
+            hb.reshape(z, [-1])
+            hb.reshape(0, [-1])              # answered by what z stored
+            w = hb.copy(y, fill0)
+            hb.T(w)
+            hb.T(0)
+            out.append(hb.result())
+    for fill1 in (5, 0, 7):                  # inherited _csr/_csc: the guard must still speak for the copy
+        hb = HistoryBuilder([3, 2], 0, 777 + fill1, 4)
+        hb.tocsr(0)
+        hb.tocsc(0)
+        y = hb.copy(0, fill1)
+        hb.tocsc(y)
+        hb.tocsr(y)
+        hb.T(y)
+        z = hb.copy(y, 0)
+        hb.tocsc(z)
+        hb.tocsr(z)
+        d = hb.deep(0)
+        hb.tocsc(d)
+        hb.tocsr(d)
+        out.append(hb.result())
+    for shape in ([2, 3], [2, 2, 3]):        # plain / shallow / deep copies and evictions through a sharer
+        hb = HistoryBuilder(shape, 0, 4242 + len(shape), 5)
+        nd = len(shape)
+        perms = [list(p) for p in __import__("itertools").permutations(range(nd))][1:5]
+        y = hb.copy(0)
+        s2 = hb.shallow(0)
+        for p in perms:
+            hb.transpose(y, p)
+        for p in perms:
+            hb.transpose(0, p)
+        d = hb.deep(0)
+        for p in perms:
+            hb.transpose(d, p)
+        hb.T(s2)
+        hb.same(d, "astype")
+        hb.same(y, "asformat")
+        if hb.dot_ok(y):
+            hb.dotl(y, [shape[-1], 2], False, 99)
+            hb.dotr(d, [2, shape[-2]], True, 98)
+        hb.reshape(0, [-1, shape[-1]])
+        out.append(hb.result())
+    return out
 
 
 def hist_literal(case, xops, u2x, r):
@@ -408,13 +558,7 @@ def hist_literal(case, xops, u2x, r):
             if o[0] == 0 and ident >= 0:
                 ident = u2x[ident]
             dst[xi] = [o[0], o[1], ident, o[3]]
-    fins = []
-    for f in r["fins"]:
-        i = -1 if f[0] < 0 else u2x[f[0]]
-        if f[1] is None:
-            fins.append((i, None))
-        else:
-            fins.append((i, f[1], f[2], f[3], f[4]))
+    fins = [(-1 if f[0] < 0 else u2x[f[0]], f[1], f[2], f[3], f[4], f[5]) for f in r["fins"]]
 
     def hop(x):
         return vpair(vZ(x[0]), vZ(x[1]), vopt(x[2], vlist), vbool(x[3]), vbool(x[4]))
@@ -423,10 +567,10 @@ def hist_literal(case, xops, u2x, r):
         return vpair(vZ(o[0]), vlist(o[1]), vZ(o[2]), vZ(o[3]))
 
     def fn(f):
-        return vpair(vZ(f[0]), vlist(f[1], vlist), vlist(f[2], vlist), vbool(f[3]), vbool(f[4]))
-    bad_fin = [f for f in fins if len(f) == 2]
-    fins_ok = [f for f in fins if len(f) == 5]
-    lit = vpair(vlist(case["shape"]), vbool(case["fill"] == 0),
+        return vpair(vZ(f[0]), vbool(f[1]), vlist(f[2], vlist), vlist(f[3], vlist), vbool(f[4]), vbool(f[5]))
+    bad_fin = []
+    fins_ok = fins
+    lit = vpair(vlist(case["shape"]), vZ(case["fill"]),
                 "[" + "; ".join(hop(x) for x in xops) + "]",
                 "[" + "; ".join(ob(o) for o in oc) + "]",
                 "[" + "; ".join(ob(o) for o in ou) + "]",
@@ -455,9 +599,12 @@ def campaign_hist(build, tier, seed, report, budget):
     ncases *= budget
     cases, aux = [], []
     tags = {}
+    gens = [lambda sc=sc: sc for sc in scenario_histories()]
     for k in range(ncases):
         ml = maxlen if k % 4 else max(6, maxlen // 5)
-        case, xops, u2x, tg = gen_history(rng, ml)
+        gens.append(lambda ml=ml: gen_history(rng, ml))
+    for g in gens:
+        case, xops, u2x, tg = g()
         cases.append(case)
         aux.append((xops, u2x))
         for t, v in tg.items():
@@ -488,7 +635,7 @@ def campaign_hist(build, tier, seed, report, budget):
                 excs += 1
             if case["uops"][ui][1] >= 0:
                 nested += 1
-        evict += sum(1 for f in r["fins"] if f[1] is not None and (len(f[1]) >= 3 or len(f[2]) >= 3))
+        evict += sum(1 for f in r["fins"] if len(f[2]) >= 3 or len(f[3]) >= 3)
     bad = build.judge("c11_hist", "From Verif Require Import C11Judge.", "hist_case", "judge_hist", lits, chunk=40)
     for k, code in bad:
         i = idx[k]
@@ -502,6 +649,177 @@ def campaign_hist(build, tier, seed, report, budget):
     tags.update({"cache-hit (identical object returned)": hits, "return-self": selfret, "exception": excs,
                  "call on a derived (nested) cache-enabled object": nested, "objects with a full deque at the end": evict})
     return viol, tags, [dict(case=cases[j], impl=res[j]) for j in (0, len(cases) // 2)]
+
+
+# ====================================================================== part 1b: free-form twin sequences
+# Sequences over a much wider operation set than the memo model covers (sort, argmax/argmin, reductions, out=
+# updates, element-wise, indexing, conversions, copies, ...), executed on a cache-enabled array and on a twin
+# without caching, with the SAME decisions (one PRNG seeded per case, choices depend only on the target's
+# shape).  No model prediction: every step's outcome (exception class or value digest) of the cached run must
+# equal the uncached run's — that is the property.  Judged in Coq as a history without model calls.
+FREE_PREFIXES = [
+    # (name, steps); a step is (operation name, target selector): "root" or "last" (the latest COO produced)
+    ("sort-then-reuse", [("sort_ax0", "root"), ("T", "root"), ("argmax_last", "root"), ("moveaxis0", "root"),
+                         ("sort_ax0_desc", "root"), ("T", "root"), ("argmin_last", "root")]),
+    ("memo-then-out-update", [("csr", "root"), ("csc", "root"), ("T", "root"), ("neg_out", "root"), ("csr", "root"),
+                              ("csc", "root"), ("T", "root"), ("sum", "root")]),
+    ("copy-with-fill-after-csc", [("csr", "root"), ("csc", "root"), ("cpfill5", "root"), ("csc", "last"),
+                                  ("csr", "last"), ("T", "last"), ("unique", "last")]),
+    ("copy-with-fill-after-T", [("T", "root"), ("flat", "root"), ("cpfill7", "root"), ("T", "last"),
+                                ("flat", "last"), ("sum_ax0", "last"), ("unique", "last")]),
+    ("argmax-then-T", [("argmax_ax0", "root"), ("T", "root"), ("sort_ax0", "root"), ("argmax_ax0", "root"),
+                       ("mul2_out", "root"), ("T", "root"), ("argmax_ax0", "root")]),
+]
+
+
+def _free_ops():
+    import numpy as np
+    import sparse
+
+    def perm(t, r):
+        p = list(range(t.ndim))
+        r.shuffle(p)
+        return t.transpose(p)
+
+    def resh(t, r):
+        sh = _factorizations(int(t.size), r)
+        if sh and r.random() < 0.3:
+            sh[r.randrange(len(sh))] = -1
+        return t.reshape(tuple(sh))
+
+    def dotd(t, r):
+        b = np.arange(t.shape[-1] * 2, dtype=np.int64).reshape(t.shape[-1], 2) % 3
+        return sparse.dot(t, b)
+    ax = lambda t, r: r.randrange(t.ndim) if t.ndim else None       # noqa: E731
+    return {
+        "T": lambda t, r: t.T, "perm": perm, "reshape": resh, "flat": lambda t, r: t.reshape(-1),
+        "csr": lambda t, r: t.tocsr(), "csc": lambda t, r: t.tocsc(),
+        "cp": lambda t, r: sparse.COO(t), "cpfill5": lambda t, r: sparse.COO(t, fill_value=5),
+        "cpfill7": lambda t, r: sparse.COO(t, fill_value=7), "cpfill0": lambda t, r: sparse.COO(t, fill_value=0),
+        "shcp": lambda t, r: t.copy(deep=False), "dcp": lambda t, r: t.copy(),
+        "astype_same": lambda t, r: t.astype(t.dtype, copy=False), "astype_f": lambda t, r: t.astype(np.float64),
+        "asformat": lambda t, r: t.asformat("coo"), "gcxs": lambda t, r: t.asformat("gcxs").tocoo(),
+        "sort_ax0": lambda t, r: sparse.sort(t, axis=0), "sort_ax0_desc": lambda t, r: sparse.sort(t, axis=0, descending=True),
+        "sort_last": lambda t, r: sparse.sort(t), "sort_any": lambda t, r: sparse.sort(t, axis=ax(t, r), descending=r.random() < 0.5),
+        "argmax_ax0": lambda t, r: sparse.argmax(t, axis=0), "argmax_last": lambda t, r: sparse.argmax(t, axis=-1),
+        "argmin_last": lambda t, r: sparse.argmin(t, axis=-1), "argmax_any": lambda t, r: sparse.argmax(t, axis=ax(t, r)),
+        "argmin_any": lambda t, r: sparse.argmin(t, axis=ax(t, r)), "argmax_flat": lambda t, r: sparse.argmax(t),
+        "sum": lambda t, r: t.sum(), "sum_ax0": lambda t, r: t.sum(axis=0), "max_any": lambda t, r: t.max(axis=ax(t, r)),
+        "min_last": lambda t, r: t.min(axis=-1), "prod_ax0": lambda t, r: t.prod(axis=0), "mean": lambda t, r: t.mean(axis=ax(t, r)),
+        "unique": lambda t, r: sparse.unique_values(t), "unique_counts": lambda t, r: tuple(sparse.unique_counts(t)),
+        "nonzero": lambda t, r: t.nonzero(), "todense": lambda t, r: t.todense(),
+        "neg_out": lambda t, r: np.negative(t, out=t), "mul2_out": lambda t, r: np.multiply(t, 2, out=t),
+        "add_self_out": lambda t, r: np.add(t, t, out=t),
+        "add_self": lambda t, r: t + t, "mul3": lambda t, r: t * 3, "gt1": lambda t, r: t > 1,
+        "idx0": lambda t, r: t[0], "idx_rev": lambda t, r: t[::-1], "idx_none": lambda t, r: t[None],
+        "squeeze": lambda t, r: t[None].squeeze(0), "swap": lambda t, r: t.swapaxes(0, -1),
+        "moveaxis0": lambda t, r: sparse.moveaxis(t, 0, -1), "roll": lambda t, r: sparse.roll(t, 1, axis=0),
+        "flip": lambda t, r: sparse.flip(t, axis=0), "dot_dense": dotd, "kron": lambda t, r: sparse.kron(t, t),
+        "concat": lambda t, r: sparse.concatenate([t, t], axis=0), "stack": lambda t, r: sparse.stack([t, t]),
+        "triu": lambda t, r: sparse.triu(t), "diag": lambda t, r: sparse.diagonal(t),
+        "bcast": lambda t, r: sparse.broadcast_to(t, (2,) + tuple(t.shape)),
+    }
+
+
+def _free_value(o):
+    import sparse
+    if isinstance(o, (tuple, list)):
+        return _digest("seq", [_free_value(e) for e in o])
+    if isinstance(o, sparse.DOK):
+        return _value_id(o.asformat("coo"))
+    try:
+        return _value_id(o)
+    except Exception:  # noqa: BLE001
+        return _digest("repr", repr(o))
+
+
+def impl_free(case):
+    """both runs of one free-form sequence -> per step (operation, target index, status or value digest)"""
+    import numpy as np
+    import sparse
+    ops = _free_ops()
+    names = sorted(ops)
+    out = {}
+    for mode, cache in (("c", True), ("u", False)):
+        r = random.Random(case["seed"])
+        x = _mk_root(case, cache)
+        pool = [x]
+        rec = []
+        script = list(case.get("prefix", []))
+        for _step in range(case["n"]):
+            if script:
+                name, sel = script.pop(0)
+                ti = 0 if sel == "root" else len(pool) - 1
+            else:
+                ti = 0 if (len(pool) == 1 or r.random() < 0.5) else r.randrange(len(pool))
+                name = names[r.randrange(len(names))]
+            t = pool[ti]
+            try:
+                with np.errstate(all="ignore"):
+                    o = ops[name](t, r)
+                rec.append([name, ti, 0, _free_value(o)])
+                if isinstance(o, sparse.COO) and o is not t and 1 <= o.ndim <= 4 and o.size <= 400:
+                    pool.append(o)
+                    if len(pool) > 8:
+                        pool.pop(1 + r.randrange(len(pool) - 2))
+            except Exception as ex:  # noqa: BLE001
+                rec.append([name, ti, EXC_CODE.get(type(ex).__name__, 9), 0, type(ex).__name__])
+        out[mode] = rec
+    return out
+
+
+def free_cases(tier, seed, budget):
+    rng = random.Random(seed * 31337 + 3)
+    n = (120 if tier == "quick" else 500) * budget
+    cases = []
+    shapes = [[2, 3], [3, 3], [3, 2], [2, 2, 3], [4], [3, 1, 2], [2, 3, 2], [5, 2]]
+    k = 0
+    for pname, steps in FREE_PREFIXES:           # every scripted prefix on several shapes / patterns
+        for shape in shapes[:6]:
+            for nnz in (3, 6, 40):
+                cases.append({"shape": shape, "fill": 0, "seed": rng.randrange(1 << 30), "nnz": nnz, "neg": k % 2 == 0,
+                              "n": len(steps) + 4, "prefix": steps, "prefix_name": pname})
+                k += 1
+    for _ in range(n):
+        cases.append({"shape": rng.choice(shapes), "fill": rng.choice([0, 0, 0, 3]), "seed": rng.randrange(1 << 30),
+                      "nnz": rng.choice([1, 3, 6, 40]), "neg": rng.random() < 0.4,
+                      "n": rng.randint(6, 14 if tier == "quick" else 40), "prefix": [], "prefix_name": None})
+    return cases
+
+
+def campaign_free(build, tier, seed, report, budget):
+    cases = free_cases(tier, seed, budget)
+    res = run_guarded("impl_free", cases, 12, 90.0, batch=400)
+    lits, idx, viol, tags = [], [], [], {}
+    for i, (c, r) in enumerate(zip(cases, res, strict=True)):
+        if "c" not in r:
+            viol.append({"property": "C11", "op": "free-sequence", "kind": "representation", "clause": None, "case": c,
+                         "impl": r, "what": "sequence runner failed (hang/crash/lost batch)",
+                         "replay_py": _replay_line("impl_free", c)})
+            continue
+        pairs = []
+        for a, b in zip(r["c"], r["u"], strict=True):
+            pairs.append((a[3] if a[2] == 0 else -a[2] - 1, b[3] if b[2] == 0 else -b[2] - 1))
+            t = a[0] + ("" if a[2] == 0 else "/raised")
+            tags[t] = tags.get(t, 0) + 1
+        lits.append(vpair("[]", "0", "[]", "[]", "[]", "[]", "[" + "; ".join(vpair(vZ(a), vZ(b)) for a, b in pairs) + "]"))
+        idx.append(i)
+    bad = build.judge("c11_free", "From Verif Require Import C11Judge.", "hist_case", "judge_hist", lits, chunk=200)
+    for k, _code in bad:
+        i = idx[k]
+        r = res[i]
+        first = next((j for j, (a, b) in enumerate(zip(r["c"], r["u"], strict=True)) if a[2:4] != b[2:4]), None)
+        viol.append({"property": "C11", "op": "free-sequence", "kind": "value", "clause": None, "code": 5,
+                     "what": "a step on the cache-enabled array (or on an array derived from it) gave a result "
+                             "different from the same step without caching",
+                     "first_differing_step": None if first is None else {"index": first, "cached": r["c"][first],
+                                                                         "uncached": r["u"][first]},
+                     "case": cases[i], "impl": {"steps": [a[:2] for a in r["c"]]},
+                     "replay_py": _replay_line("impl_free", cases[i])})
+    cov = report["coverage"]
+    cov["free_cases"] = len(cases)
+    cov["free_steps"] = sum(len(r["c"]) for r in res if "c" in r)
+    return viol, {("op:" + k): v for k, v in tags.items()}, [dict(case=cases[0], impl=res[0])]
 
 
 def _replay_line(fn, case):
@@ -923,10 +1241,13 @@ def campaign_snap(build, tier, seed, report, budget):
 # ====================================================================== entry points
 def campaign(build, tier, seed, report, budget=1):
     v1, t1, s1 = campaign_hist(build, tier, seed, report, budget)
+    v3, t3, s3 = campaign_free(build, tier, seed, report, budget)
     v2, t2, s2 = campaign_snap(build, tier, seed, report, budget)
+    v1, s1 = v1 + v3, s1 + s3
+    t1 = {**t1, **t3}
     cov = report["coverage"]
-    cov["evaluations"] = cov["hist_calls"] + cov["snap_cases"]
-    cov["distinct_nontrivial"] = cov["hist_cases"] + cov["snap_ok_calls"]
+    cov["evaluations"] = cov["hist_calls"] + cov["free_steps"] + cov["snap_cases"]
+    cov["distinct_nontrivial"] = cov["hist_cases"] + cov["free_cases"] + cov["snap_ok_calls"]
     cov["rule"] = ("part 1: random histories of transpose/.T/reshape/tocsr/tocsc/dot calls (length <= 30 quick, <= 200 "
                    "thorough) on one cache-enabled COO and on the cache-enabled objects it returned, each run with "
                    "and without caching, judged in Coq against Model/Cache.v; distinct = histories.  part 2: every "
